@@ -180,6 +180,46 @@ def run(ctx):
         check_guises(ns, "system=" + sname, lambda d, n: d.get(n))
         ctx.count("registries", 1)
 
+    # histories: registries that share a unit-system name but differ in the size of that system's base units, built one after
+    # the other (plain above, re-scaled here, plain again).  In a re-scaled registry the constants mean something else than the
+    # defaults, but all guises of one constant must still be one quantity; and the plain registry built afterwards is unaffected.
+    from unyt.unit_systems import unit_system_registry
+
+    for sname in SYSTEMS:
+        reg = UnitRegistry(unit_system=sname)
+        usys = unit_system_registry[sname]
+        nres = 0
+        for k_, dimname in enumerate(("length", "mass", "time")):
+            for sym in sorted(str(a) for a in usys[dimname].expr.free_symbols):
+                try:
+                    reg.modify(sym, float(reg.lut[sym][0]) * (2.0 + k_))
+                    nres += 1
+                except Exception:
+                    pass
+        ns = {}
+        add_constants(ns, reg)
+        for cn in canon_names:
+            if cn not in default_si:
+                continue
+            ref = ns.get(cn + "_mks")
+            if ref is None:
+                continue
+            m0, d0 = si(ref)
+            for name in [cn] + list(pct[cn][2]):
+                for suffix in ("", "_cgs"):
+                    q = ns.get(name + suffix)
+                    if q is None:
+                        continue
+                    ctx.ev()
+                    ctx.nt(("rescaled-registry", sname, name + suffix))
+                    mg, dm = si(q)
+                    if dm == d0 and relerr(mg, m0) > 1e-11:
+                        ctx.violation(f"C15:guises-differ-in-rescaled-registry:{cn}", {"system": sname, "name": name + suffix, "got_si": mg, "mks_guise_si": m0, "rescaled_symbols": nres})
+        ns = {}
+        add_constants(ns, UnitRegistry(unit_system=sname))
+        check_guises(ns, "system=" + sname + " (after a re-scaled registry of the same system)", lambda d, n: d.get(n))
+        ctx.count("re-scaled registries", 1)
+
     # user-defined unit systems, including offset temperature scales and quantity-valued bases: the constants built for such
     # a registry must be the same physical quantities (compared after converting back to the default constant's unit, so that
     # zero-point offsets are honoured)
